@@ -24,6 +24,12 @@ RULE = ('all ordered lists (with repetition) of up to K chains from the complete
 BUDGET = {'quick': 400, 'thorough': 3600}
 TINY = 2.0 ** -27     # non-zero, exactly representable, below the default absolute tolerance of np.isclose
 COEFFS = [1.0, -1.0, 2.0, 0.5, 0.0, TINY]
+# complex coefficients (written as strings in cases so that replay files stay JSON): sums cancel exactly (1j + -1j) or stay complex
+CCOEFFS = [1.0, '1j', '-1j', '(0.5-0.5j)']
+
+
+def cval(c):
+    return complex(c) if isinstance(c, str) else c
 
 
 def words(L, letters):
@@ -83,7 +89,7 @@ def make_chunks(L, letters, mode, coeffs, K):
 def reference_poly(L, chains):
     p = {}
     for istart, w, c, q in chains:
-        p = sym.padd(p, sym.chain_poly(istart, w, c, L))
+        p = sym.padd(p, sym.chain_poly(istart, w, cval(c), L))
     return sym.pclean(p)
 
 
@@ -123,13 +129,15 @@ def check_mpo_from_graph(ctx, graph, qd, opmap, L, ref_dense, prefix=''):
 
 def run_case(case, ctx):
     L, mode, chains = case['L'], case['mode'], case['chains']
-    nz = [c for c in chains if c[2] != 0]
+    nz = [c for c in chains if cval(c[2]) != 0]
     if not nz:
         raise OutOfDomain()
-    ocs = [OpChain(w, q, c, istart) for istart, w, c, q in chains]
+    ocs = [OpChain(w, q, cval(c), istart) for istart, w, c, q in chains]
+    if any(isinstance(c[2], str) for c in chains):
+        ctx.cls('complex_coefficients')
     graph = OpGraph.from_opchains(ocs, L, 0)
     ctx.calls += 1
-    ctx.nontrivial = len(nz) >= 2 or nz[0][2] != 1.0
+    ctx.nontrivial = len(nz) >= 2 or cval(nz[0][2]) != 1.0
     ref = reference_poly(L, chains)
     ctx.cls('zero_operator' if not ref else ('single_term' if len(ref) == 1 else 'multi_term'))
     if len(nz) > len(ref):
@@ -143,7 +151,7 @@ def run_case(case, ctx):
     layers = sym.graph_layers(graph)
     ctx.check(len(layers) == L + 1, 'graph_layer_count', len(layers))
     got = sym.graph_poly(graph)
-    ctx.obs(sorted((w, float(c)) for w, c in got.items()))
+    ctx.obs(sorted((w, complex(c)) for w, c in got.items()))
     ctx.check(sym.pequal(got, ref), 'graph_operator_equals_sum_of_chains', sym.pdiff(got, ref))
     if mode == 'interior':
         return
@@ -213,7 +221,7 @@ def replay_case(space, case, seed):
 
 
 def sig(case):
-    nz = [c for c in case['chains'] if c[2] != 0]
+    nz = [c for c in case['chains'] if cval(c[2]) != 0]
     return f'L={case["L"]}:{case["mode"]}:nchains={len(case["chains"])}:nz={len(nz)}'
 
 
@@ -230,6 +238,10 @@ def spaces(tier, seed):
             (3, [0, 1, 2, 3], 'consistent', [1.0, -1.0, 0.5], 2),
             (2, [0, 1], 'interior', [1.0, -1.0, 2.0], 3),
             (3, [0, 1], 'interior', [1.0, 2.0], 2),
+            (1, [0, 1, 2], 'zero', CCOEFFS, 3),
+            (2, [0, 1, 2], 'zero', CCOEFFS, 2),
+            (2, [0, 1, 2, 3], 'consistent', CCOEFFS, 2),
+            (3, [0, 1], 'zero', CCOEFFS[:3], 2),
         ]
     else:
         plan = [
@@ -244,10 +256,15 @@ def spaces(tier, seed):
             (4, [0, 1, 2, 3], 'consistent', [1.0, 2.0], 2),
             (2, [0, 1, 2], 'interior', C, 3),
             (3, [0, 1], 'interior', [1.0, -1.0, 2.0], 3),
+            (1, [0, 1, 2, 3], 'zero', CCOEFFS, 4),
+            (2, [0, 1, 2], 'zero', CCOEFFS, 3),
+            (2, [0, 1, 2, 3], 'consistent', CCOEFFS, 3),
+            (3, [0, 1, 2], 'zero', CCOEFFS, 2),
+            (3, [0, 1, 2, 3], 'consistent', CCOEFFS[:3], 2),
         ]
     sps = []
     for (L, letters, mode, coeffs, K) in plan:
-        name = f'chains_L{L}_{mode}_a{len(letters)}_c{len(coeffs)}_K{K}'
+        name = f'chains_L{L}_{mode}_a{len(letters)}_c{len(coeffs)}{"x" if any(isinstance(c, str) for c in coeffs) else ""}_K{K}'
         sps.append(Space(name, make_chunks(L, letters, mode, coeffs, K), run_case=run_case, expand=expand, sig=sig,
                          bounds={'L': L, 'letters': letters, 'charge_mode': mode, 'coeffs': coeffs, 'max_chains': K,
                                  'menu_size': len(get_menu(L, letters, mode, coeffs))}))
